@@ -100,7 +100,8 @@ def run_kani(harnesses, jobs=16, harness_timeout=900, extra_args=None, use_cache
     if os.path.exists(out_json):
         os.remove(out_json)
     cmd = ["cargo", "kani", "--target-dir", TARGET, "--exact", "-j", str(jobs), "--output-format", "terse",
-           "--export-json", out_json, "--harness-timeout", "%ds" % harness_timeout, "-Z", "unstable-options"]
+           "--export-json", out_json, "--harness-timeout", "%ds" % harness_timeout, "-Z", "unstable-options",
+           "--no-assertion-reach-checks"]
     for h in todo:
         cmd += ["--harness", MOD_PREFIX + h]
     if extra_args:
@@ -145,7 +146,7 @@ def concrete_playback(harness, timeout=1200):
     ensure_playback_file()
     full = MOD_PREFIX + harness
     cmd = ["cargo", "kani", "--target-dir", TARGET, "--exact", "--harness", full, "-Z", "concrete-playback",
-           "--concrete-playback=print", "--output-format", "terse"]
+           "--concrete-playback=print", "--output-format", "terse", "--no-assertion-reach-checks"]
     rc, out, err, wall, to = run(cmd, cwd=REPO, env=ENV, timeout=timeout)
     text = out + "\n" + err
     m = re.search(r"```\n?(.*?)```", text, re.S)
